@@ -660,3 +660,138 @@ Proof.
   - apply annotate_keeps; [intros E; vm_compute in E; discriminate|intros E; vm_compute in E; discriminate|assumption].
   - destruct (annotate_cg_inv _ _ H) as [_ [_ [_ [_ [Sh _]]]]]. now apply shape_node_keys.
 Qed.
+
+(** ------------------------------------------------------------------ chiral_stays through the relabelling *)
+Definition node_na (g : graph) (k : Z) : option attrs := option_map na (gfind k g).
+
+Lemma gfind_app g x k : gfind k (g ++ [x]) = match gfind k g with Some n => Some n | None => if Z.eqb (nk x) k then Some x else None end.
+Proof. induction g as [|n r IH]; cbn; [reflexivity|]. destruct (Z.eqb (nk n) k); [reflexivity|exact IH]. Qed.
+
+Lemma node_na_gupdate_keep k f g k' : (forall n, nk (f n) = nk n /\ na (f n) = na n) ->
+  node_na (gupdate k f g) k' = node_na g k'.
+Proof.
+  intros Hf. unfold node_na. rewrite gfind_gupdate by (intros n; apply Hf).
+  destruct (Z.eqb_spec k' k) as [->|_]; [|reflexivity]. destruct (gfind k g); cbn; [|reflexivity].
+  now destruct (Hf n) as [_ ->].
+Qed.
+Lemma has_node_gupdate k f g k' : (forall n, nk (f n) = nk n) -> has_node (gupdate k f g) k' = has_node g k'.
+Proof.
+  intros Hf. unfold has_node. rewrite gfind_gupdate by assumption.
+  destruct (Z.eqb_spec k' k) as [->|_]; [|reflexivity]. now destruct (gfind k g).
+Qed.
+
+Lemma add_edge_keeps g u v d k : has_node g k = true ->
+  node_na (add_edge g u v d) k = node_na g k /\ has_node (add_edge g u v d) k = true.
+Proof.
+  intros H. unfold add_edge.
+  set (g1 := if has_node g u then g else g ++ [{| nk := u; na := []; nadj := [] |}]).
+  set (g2 := if has_node g1 v then g1 else g1 ++ [{| nk := v; na := []; nadj := [] |}]).
+  assert (A1 : node_na g1 k = node_na g k /\ has_node g1 k = true).
+  { unfold g1. destruct (has_node g u); [auto|]. unfold node_na, has_node in *. rewrite gfind_app.
+    destruct (gfind k g); [auto|discriminate]. }
+  assert (A2 : node_na g2 k = node_na g k /\ has_node g2 k = true).
+  { unfold g2. destruct (has_node g1 v); [auto|]. destruct A1 as [E1 E2]. unfold node_na, has_node in *. rewrite gfind_app.
+    destruct (gfind k g1); [auto|discriminate]. }
+  destruct A2 as [E1 E2]. split.
+  - rewrite !node_na_gupdate_keep by (intros n; cbn; auto). exact E1.
+  - rewrite !has_node_gupdate by reflexivity. exact E2.
+Qed.
+Lemma add_edges_keep {E} (step : graph -> E -> graph) (es : list E) :
+  (forall g e k, has_node g k = true -> node_na (step g e) k = node_na g k /\ has_node (step g e) k = true) ->
+  forall g k, has_node g k = true -> node_na (fold_left step es g) k = node_na g k.
+Proof.
+  intros Hs. induction es as [|e r IH]; intros g k H; cbn; [reflexivity|].
+  destruct (Hs g e k H) as [E1 E2]. rewrite IH by assumption. exact E1.
+Qed.
+
+Lemma has_node_add_node g k a k' : has_node g k' = true -> has_node (add_node g k a) k' = true.
+Proof.
+  intros H. unfold add_node. destruct (has_node g k) eqn:E.
+  - now rewrite has_node_gupdate by reflexivity.
+  - unfold has_node in *. rewrite gfind_app. now destruct (gfind k' g).
+Qed.
+Lemma has_node_add_node_same g k a : has_node (add_node g k a) k = true.
+Proof.
+  unfold add_node. destruct (has_node g k) eqn:E.
+  - now rewrite has_node_gupdate by reflexivity.
+  - unfold has_node in *. rewrite gfind_app. destruct (gfind k g); [reflexivity|]. cbn. now rewrite Z.eqb_refl.
+Qed.
+
+Section Relabel.
+  Variable mu : Z -> Z.
+
+  Lemma h0_has (l : list nrec) : forall h n, (In n l \/ has_node h (mu (nk n)) = true) ->
+    has_node (fold_left (fun acc n => add_node acc (mu (nk n)) []) l h) (mu (nk n)) = true.
+  Proof.
+    induction l as [|x r IH]; intros h n H; cbn.
+    - destruct H as [[]|H]; assumption.
+    - apply IH. destruct H as [[->|I]|H]; [right; apply has_node_add_node_same|now left|right; now apply has_node_add_node].
+  Qed.
+
+  Definition put (acc : graph) (n : nrec) : graph :=
+    gupdate (mu (nk n)) (fun x => {| nk := nk x; na := na n; nadj := nadj x |}) acc.
+  Lemma put_other acc n k : k <> mu (nk n) -> node_na (put acc n) k = node_na acc k.
+  Proof.
+    intros N. unfold put, node_na. rewrite gfind_gupdate by reflexivity.
+    destruct (Z.eqb_spec k (mu (nk n))); [contradiction|reflexivity].
+  Qed.
+  Lemma put_same acc n : has_node acc (mu (nk n)) = true -> node_na (put acc n) (mu (nk n)) = Some (na n).
+  Proof.
+    intros H. unfold put, node_na, has_node in *. rewrite gfind_gupdate by reflexivity. rewrite Z.eqb_refl.
+    destruct (gfind (mu (nk n)) acc); [reflexivity|discriminate].
+  Qed.
+  Lemma put_has acc n k : has_node (put acc n) k = has_node acc k.
+  Proof. unfold put. now rewrite has_node_gupdate by reflexivity. Qed.
+
+  Lemma h1_na (l : list nrec) : NoDup (map (fun n => mu (nk n)) l) ->
+    forall h, (forall n, In n l -> has_node h (mu (nk n)) = true) ->
+    forall n, In n l -> node_na (fold_left put l h) (mu (nk n)) = Some (na n).
+  Proof.
+    induction l as [|x r IH]; intros ND h Hh n I; [contradiction|]. cbn.
+    inversion ND as [|? ? NI ND']; subst. destruct I as [->|I].
+    - (* the later writes touch other keys *)
+      assert (K : forall l' h', ~ In (mu (nk n)) (map (fun m => mu (nk m)) l') ->
+                  node_na (fold_left put l' h') (mu (nk n)) = node_na h' (mu (nk n))).
+      { induction l' as [|y r' IH']; intros h' NI'; cbn; [reflexivity|].
+        rewrite IH' by (intros C; apply NI'; now right). apply put_other. intros C. apply NI'. left. now rewrite C. }
+      rewrite K by assumption. apply put_same. apply Hh. now left.
+    - apply IH; [assumption| |assumption]. intros m Im. rewrite put_has. apply Hh. now right.
+  Qed.
+  Lemma fold_put_has l : forall h k, has_node (fold_left put l h) k = has_node h k.
+  Proof. induction l as [|x r IH]; intros h k; cbn; [reflexivity|]. now rewrite IH, put_has. Qed.
+End Relabel.
+
+(** the attribute dict of every atom arrives unchanged at its new key *)
+Theorem relabel_copy_attrs g m n : NoDup (map (fun x => map_get m (nk x)) g) -> In n g ->
+  node_na (relabel_copy g m) (map_get m (nk n)) = Some (na n).
+Proof.
+  intros ND I. unfold relabel_copy.
+  set (h0 := fold_left (fun acc n0 => add_node acc (map_get m (nk n0)) []) g gempty).
+  assert (H0 : forall x, In x g -> has_node h0 (map_get m (nk x)) = true).
+  { intros x Ix. unfold h0. apply (h0_has (map_get m)). now left. }
+  set (h1 := fold_left _ g h0).
+  assert (H1 : node_na h1 (map_get m (nk n)) = Some (na n)) by (apply (h1_na (map_get m)); assumption).
+  assert (H1' : has_node h1 (map_get m (nk n)) = true).
+  { unfold h1. change (fold_left _ g h0) with (fold_left (put (map_get m)) g h0). rewrite fold_put_has. now apply H0. }
+  rewrite <- H1. apply add_edges_keep; [|assumption].
+  intros g' e k Hk. apply add_edge_keeps. assumption.
+Qed.
+
+(** sort_nodes_by_attr = relabel_copy + rewriting of 'ez_isomer_atoms': the 'chiral' label of every atom
+    is found at the atom's new key *)
+Lemma set_nodes_from_other a d a' : a' <> a -> forall g k, node_get (set_nodes_from g a d) k a' = node_get g k a'.
+Proof.
+  intros N. unfold set_nodes_from. induction d as [|kv r IH]; intros g k; cbn; [reflexivity|].
+  rewrite IH, node_get_set. destruct (_ && _); [|reflexivity].
+  destruct (str_eqb_spec a' a); [contradiction|reflexivity].
+Qed.
+Theorem chiral_stays_sort g h m n : sort_mapping g = Ok m -> sort_nodes_by_attr g = Ok h ->
+  NoDup (map (fun x => map_get m (nk x)) g) -> In n g ->
+  node_get h (map_get m (nk n)) (S "chiral") = aget (S "chiral") (na n).
+Proof.
+  intros Hm Hs ND I. unfold sort_nodes_by_attr, bind in Hs. rewrite Hm in Hs.
+  destruct (map_res _ _) as [nd|]; [|discriminate]. inversion Hs; subst h. clear Hs.
+  rewrite set_nodes_from_other by (intros E; vm_compute in E; discriminate).
+  pose proof (relabel_copy_attrs g m n ND I) as R. unfold node_na in R. unfold node_get.
+  destruct (gfind (map_get m (nk n)) (relabel_copy g m)); cbn in R; [|discriminate]. now inversion R.
+Qed.
